@@ -36,6 +36,12 @@ pub struct ClientScript {
     pub steps: Vec<Step>,
     /// true: vanish without a Close frame (needs the heartbeat to be noticed)
     pub abrupt: bool,
+    /// stay connected until the harness has issued its late burst of broadcasts
+    #[serde(default)]
+    pub linger: bool,
+    /// send the Close frame right behind the last messages, without waiting for their echoes
+    #[serde(default)]
+    pub close_immediately: bool,
 }
 
 #[derive(Clone, Debug, Serialize, Deserialize)]
@@ -46,6 +52,9 @@ pub struct Scenario {
     pub heartbeat: bool,
     /// external sender actions, interleaved by time: (delay ms, broadcast? else unicast to client index)
     pub external: Vec<(u8, Option<u8>)>,
+    /// broadcasts issued back-to-back after every non-lingering client has left (some possibly abruptly)
+    #[serde(default)]
+    pub late_broadcasts: u8,
 }
 
 #[derive(Clone, Debug, PartialEq)]
@@ -62,6 +71,10 @@ struct Shared {
     gate: Mutex<(Vec<bool>, Vec<Vec<u32>>, Vec<Vec<u32>>)>,
     /// local address of each client, registered right after the TCP connect
     addrs: Mutex<Vec<Option<SocketAddr>>>,
+    /// set once the late broadcasts have been issued: lingering clients may leave
+    release: std::sync::atomic::AtomicBool,
+    /// number of non-lingering clients that have finished
+    finished: std::sync::atomic::AtomicUsize,
 }
 
 fn payload(client: usize, seq: usize, extra: usize) -> Vec<u8> {
@@ -211,6 +224,41 @@ fn run_client(idx: usize, sc: &ClientScript, addr: SocketAddr, shared: Arc<Share
             Step::Sleep(ms) => std::thread::sleep(Duration::from_millis(*ms as u64 % 12)),
         }
     }
+    let immediate = sc.close_immediately && !sc.abrupt && !sc.linger;
+    if immediate {
+        // leave at once: Close right behind the last messages; nothing more is required of the server for this client
+        shared.gate.lock().unwrap().0[idx] = true;
+        send(&ws::encode(&RFrame { fin: true, rsv: [false; 3], opcode: 8, mask: key(), payload: vec![0x03, 0xe8] }));
+        let t = Instant::now();
+        while !received.lock().unwrap().2 && t.elapsed() < Duration::from_secs(5) {
+            std::thread::sleep(Duration::from_millis(1));
+        }
+        let _ = sock.shutdown(std::net::Shutdown::Both);
+        let _ = reader.join();
+        let g = received.lock().unwrap();
+        res.received = g.0.clone();
+        res.stray = g.1.clone();
+        shared.finished.fetch_add(1, std::sync::atomic::Ordering::SeqCst);
+        return res;
+    }
+    if sc.linger {
+        // wait for our echoes, then stay connected (and not leaving) until the harness releases us
+        let deadline = Instant::now() + Duration::from_secs(10);
+        loop {
+            let g = received.lock().unwrap();
+            let have_echo = res.sent.iter().all(|p| g.0.iter().any(|(_, m)| m.len() == p.len() + 5 && m.starts_with(b"echo:") && &m[5..] == &p[..]));
+            let dead = g.2;
+            drop(g);
+            if have_echo || dead || Instant::now() >= deadline {
+                break;
+            }
+            std::thread::sleep(Duration::from_millis(1));
+        }
+        let t = Instant::now();
+        while !shared.release.load(std::sync::atomic::Ordering::SeqCst) && t.elapsed() < Duration::from_secs(20) {
+            std::thread::sleep(Duration::from_millis(1));
+        }
+    }
     // before leaving: wait for the echo of every message and for every broadcast/unicast we are required to see
     let required: Vec<u32> = {
         let mut g = shared.gate.lock().unwrap();
@@ -251,6 +299,9 @@ fn run_client(idx: usize, sc: &ClientScript, addr: SocketAddr, shared: Arc<Share
     let g = received.lock().unwrap();
     res.received = g.0.clone();
     res.stray = g.1.clone();
+    if !sc.linger {
+        shared.finished.fetch_add(1, std::sync::atomic::Ordering::SeqCst);
+    }
     res
 }
 
@@ -348,6 +399,42 @@ pub fn run_scenario(s: &Scenario, ip: &str, seed: u64) -> (Vec<Fail>, bool) {
         }
         drop(g);
     }
+    // late burst: once every non-lingering client has left (abrupt ones leave dead sockets behind until the heartbeat
+    // notices), issue broadcasts back-to-back; the lingering clients are connected and not leaving, so they must get all
+    let non_lingering = s.clients.iter().filter(|c| !c.linger).count();
+    let t_wait = Instant::now();
+    while shared.finished.load(std::sync::atomic::Ordering::SeqCst) < non_lingering && t_wait.elapsed() < Duration::from_secs(25) {
+        std::thread::sleep(Duration::from_millis(1));
+    }
+    for k in 0..(s.late_broadcasts % 6) as u32 {
+        let id = 1000 + k;
+        let mut g = shared.gate.lock().unwrap();
+        let log = shared.log.lock().unwrap().clone();
+        let mut connected: BTreeSet<SocketAddr> = BTreeSet::new();
+        for e in &log {
+            match e {
+                Ev::Connect(a) => {
+                    connected.insert(*a);
+                }
+                Ev::Disconnect(a) => {
+                    connected.remove(a);
+                }
+                _ => {}
+            }
+        }
+        let addrs = shared.addrs.lock().unwrap().clone();
+        for i in 0..n {
+            if let Some(a) = addrs[i] {
+                if connected.contains(&a) && !g.0[i] {
+                    g.1[i].push(id);
+                }
+            }
+        }
+        issued.push((id, None, connected));
+        sender.broadcast(Message::new(format!("ext#{}", id)));
+        drop(g);
+    }
+    shared.release.store(true, std::sync::atomic::Ordering::SeqCst);
     let results: Vec<ClientResult> = handles.into_iter().map(|h| h.join().unwrap_or(ClientResult { addr: None, sent: vec![], received: vec![], stray: Some("client thread panicked".into()), missing_echo: vec![], missing_required: vec![], connect_failed: None })).collect();
     // wait for the disconnect events (abrupt ones need the heartbeat timeout)
     let expect_disc = results.iter().filter(|r| r.addr.is_some() && r.connect_failed.is_none()).count();
@@ -440,7 +527,7 @@ pub fn run_scenario(s: &Scenario, ip: &str, seed: u64) -> (Vec<Fail>, bool) {
         if echoes.len() != total {
             fails.push(fail!("unicast-duplicated", "client {} received an echo twice", i));
         }
-        if !r.missing_echo.is_empty() {
+        if !r.missing_echo.is_empty() && !(s.clients[i].close_immediately && !s.clients[i].abrupt && !s.clients[i].linger) {
             fails.push(fail!("unicast-lost", "client {} never received the echo of {} of its {} messages although it waited 10 s", i, r.missing_echo.len(), r.sent.len()));
         }
         if !r.missing_required.is_empty() {
@@ -476,15 +563,17 @@ fn arb_scenario() -> impl Strategy<Value = Scenario> {
         1 => Just(Step::Ping),
         2 => any::<u8>().prop_map(Step::Sleep),
     ];
-    let client = (any::<u8>(), proptest::collection::vec(step, 0..8), prop_oneof![6 => Just(false), 1 => Just(true)]).prop_map(|(start_delay_ms, steps, abrupt)| ClientScript { start_delay_ms, steps, abrupt });
+    let client = (any::<u8>(), proptest::collection::vec(step, 0..8), prop_oneof![6 => Just(false), 1 => Just(true)], prop_oneof![3 => Just(false), 1 => Just(true)], prop_oneof![3 => Just(false), 1 => Just(true)])
+        .prop_map(|(start_delay_ms, steps, abrupt, linger, close_immediately)| ClientScript { start_delay_ms, steps, abrupt, linger: linger && !abrupt, close_immediately });
     (
         proptest::collection::vec(client, 1..9),
         prop_oneof![4 => Just(1usize), 3 => 2usize..9],
         0u8..11,
         any::<bool>(),
         proptest::collection::vec((any::<u8>(), proptest::option::of(any::<u8>())), 0..5),
+        prop_oneof![1 => Just(0u8), 1 => 1u8..6],
     )
-        .prop_map(|(clients, handler_threads, poll_ms, heartbeat, external)| Scenario { clients, handler_threads, poll_ms, heartbeat, external })
+        .prop_map(|(clients, handler_threads, poll_ms, heartbeat, external, late_broadcasts)| Scenario { clients, handler_threads, poll_ms, heartbeat, external, late_broadcasts })
 }
 
 pub fn run(ctx: &Ctx) {
@@ -518,6 +607,12 @@ pub fn run(ctx: &Ctx) {
                 }
                 if s.handler_threads == 1 {
                     labels.push("1-thread-pool(order checked)");
+                }
+                if s.late_broadcasts % 6 > 0 && s.clients.iter().any(|c| c.linger) && s.clients.iter().any(|c| c.abrupt) {
+                    labels.push("late-broadcasts-past-a-dead-peer");
+                }
+                if s.clients.iter().any(|c| c.close_immediately && !c.abrupt && !c.linger && !c.steps.is_empty()) {
+                    labels.push("close-right-behind-messages");
                 }
                 ctx.case(hash_of(&format!("{:?}", s)), nt, &labels);
                 ctx.sample(labels.last().unwrap(), || json!({"clients": s.clients.len(), "handler_threads": s.handler_threads, "poll_ms": s.poll_ms % 11, "heartbeat": s.heartbeat, "external": s.external, "first_client": s.clients[0]}));
